@@ -3,8 +3,11 @@ package props
 import (
 	"bytes"
 	"context"
+	"crypto/sha256"
 	"errors"
 	"fmt"
+	"github.com/ipld/go-ipld-prime/datamodel"
+	"hash"
 	"math/rand"
 	"strings"
 	"sync"
@@ -96,6 +99,8 @@ func runC02(c *vf.Ctx) {
 	c02BigBlocks(c)
 	c02Corrupt(c)
 	c02Branching(c)
+	c02OtherFunction(c)
+	c02PrivateFunction(c)
 }
 
 // blocks whose encoded size is exactly a power of two (or one byte off): typical values of size caps
@@ -239,7 +244,7 @@ func c02Corrupt(c *vf.Ctx) {
 		e := envs[r.Intn(len(envs))]
 		L := 1 + r.Intn(5)
 		headIdx := L - 1
-		pos := r.Intn(L)                         // which block request (newest first) is corrupted: chain index headIdx-pos
+		pos := r.Intn(L) // which block request (newest first) is corrupted: chain index headIdx-pos
 		kind := c02MutKinds[r.Intn(len(c02MutKinds))]
 		announced := r.Intn(3) == 0
 		seg := int64(0)
@@ -810,5 +815,247 @@ func c02Branching(c *vf.Ctx) {
 		front.Plan = nil
 		c.Eval(2)
 		c.Distinct(sub, kind, fmt.Sprint(headIdx, tpos, announced))
+	}
+}
+
+// c02OtherFunction: a chain whose links name different hash functions, and one link whose digest is the digest of the
+// served bytes under ANOTHER function than the one its CID names (the function of the block fetched just before). The
+// bytes do not hash to that CID, whatever was computed for its neighbours.
+func c02OtherFunction(c *vf.Ctx) {
+	const sub = "digest-of-another-function"
+	if !c.Active(sub) {
+		return
+	}
+	id := Keys()["ed25519"][1]
+	n := c.N(60, 3000)
+	for i := 0; i < n; i++ {
+		if !c.Mine(sub, i) {
+			continue
+		}
+		r := c.Rand(sub, i)
+		named := []uint64{multihash.SHA3_256, multihash.BLAKE3, multihash.SHA2_256}[i%3]    // the function the bad CID names
+		actual := []uint64{multihash.SHA2_256, multihash.SHA2_256, multihash.SHA3_256}[i%3] // the function its digest was made with
+		announced := r.Intn(3) == 0
+		desc := fmt.Sprintf("cid-names=%#x digest-made-with=%#x announced=%v", named, actual, announced)
+		c.Cur(sub, i, desc)
+		pub := NewStore()
+		// block 0 (oldest), stored honestly under the function the head also uses
+		ch, err := NewChain(r, pub, 1, id.ID, linkProto(actual, -1))
+		if err != nil {
+			c.Note("function %#x not usable with the default link system: %v", actual, err)
+			continue
+		}
+		body0, _ := pub.Raw(ch.Cids[0])
+		sum, err := multihash.Sum(body0, actual, -1)
+		if err != nil {
+			continue
+		}
+		dm, _ := multihash.Decode(sum)
+		fakeMh, err := multihash.Encode(dm.Digest, named)
+		if err != nil {
+			continue
+		}
+		fake := cid.NewCidV1(cid.DagJSON, fakeMh)
+		// block 1 (head) links to block 0 through the CID with the mismatched function
+		ad := schema.Advertisement{Provider: id.ID.String(), Addresses: []string{"/ip4/8.8.8.8/tcp/1234"}, Entries: schema.NoEntries,
+			ContextID: rbytes(r, 6), Metadata: rbytes(r, 4), Signature: rbytes(r, 8), PreviousID: cidlink.Link{Cid: fake}}
+		nd, err := ad.ToNode()
+		if err != nil {
+			c.Fail(sub, i, "harness-env", err.Error(), nil)
+			continue
+		}
+		l, err := pub.Lsys.Store(ipld.LinkContext{}, linkProto(actual, -1), nd)
+		if err != nil {
+			c.Fail(sub, i, "harness-env", err.Error(), nil)
+			continue
+		}
+		headCid := l.(cidlink.Link).Cid
+		front, err := NewFront(c, id, pub, MountPlain, "")
+		if err != nil {
+			c.Fail(sub, i, "harness-env", err.Error(), nil)
+			continue
+		}
+		front.Pub.SetRoot(headCid)
+		served := 0
+		front.Plan = func(ev ReqEvent) *Fault {
+			if ev.Rsrc == fake.String() {
+				served++
+				return &Fault{Body: body0, Label: "bytes-of-the-honest-block"}
+			}
+			return nil
+		}
+		dst := NewStore()
+		var hmu sync.Mutex
+		var hooks []cid.Cid
+		opts := []dagsync.Option{dagsync.BlockHook(func(_ peer.ID, cd cid.Cid, _ dagsync.SegmentSyncActions) {
+			hmu.Lock()
+			hooks = append(hooks, cd)
+			hmu.Unlock()
+		})}
+		if announced {
+			opts = append(opts, dagsync.RecvAnnounce(""))
+		}
+		s, err := newSubscriber(dst, opts...)
+		if err != nil {
+			front.Close()
+			c.Fail(sub, i, "harness-subscriber", err.Error(), nil)
+			continue
+		}
+		evs, cancel := s.OnSyncFinished()
+		wit := func() any {
+			return map[string]any{"case": desc, "head": headCid.String(), "link_with_the_mismatched_function": fake.String(), "served_for_it": fmt.Sprintf("%q", body0), "requests": BlockRequests(front.Log())}
+		}
+		c.Guard(sub, i, wit, func() {
+			var serr error
+			if announced {
+				if err := s.Announce(context.Background(), headCid, front.AddrInfo()); err != nil {
+					serr = err
+				} else {
+					select {
+					case ev := <-evs:
+						serr = ev.Err
+					case <-time.After(60 * time.Second):
+						c.Fail(sub, i, "no-notification-after-announce", "", wit())
+						return
+					}
+				}
+			} else {
+				_, serr = s.SyncAdChain(context.Background(), front.AddrInfo())
+			}
+			if served == 0 {
+				c.Inc("mismatched_function_link_not_requested")
+				return
+			}
+			c.Inc("blocks_served_under_a_cid_naming_another_function")
+			if serr == nil {
+				c.Fail(sub, i, "corrupted-sync-succeeded:digest-of-another-function", desc, wit())
+			}
+			if _, ok := dst.Raw(fake); ok {
+				c.Fail(sub, i, "store-holds-block-not-matching-its-cid:digest-of-another-function", fake.String(), wit())
+			}
+			hmu.Lock()
+			for _, h := range hooks {
+				if h.Equals(fake) {
+					c.Fail(sub, i, "corrupted-block-reported:digest-of-another-function", fake.String(), wit())
+				}
+			}
+			hmu.Unlock()
+			if lt := s.GetLatestSync(id.ID); lt != nil {
+				c.Fail(sub, i, "corrupted-sync-set-latest:digest-of-another-function", lt.String(), wit())
+			}
+			if _, bad := dst.Audit(); len(bad) > 0 {
+				c.Fail(sub, i, "store-holds-block-not-matching-its-cid:digest-of-another-function", fmt.Sprint(bad), wit())
+			}
+		})
+		cancel()
+		s.Close()
+		front.Close()
+		c.Eval(1)
+		c.Distinct(sub, desc)
+	}
+}
+
+// c02PrivateFunction: the application's link system knows a hash function the global registry does not (a private-use
+// code, through its own HasherChooser). Whether or not the subscriber can follow links that name it, bytes that do not
+// hash to such a CID are never stored or reported.
+func c02PrivateFunction(c *vf.Ctx) {
+	const sub = "private-hash-function"
+	if !c.Active(sub) {
+		return
+	}
+	const privCode = 0x300000
+	chooser := func(lp datamodel.LinkPrototype) (hash.Hash, error) {
+		if p, ok := lp.(cidlink.LinkPrototype); ok && p.MhType == privCode {
+			return sha256.New(), nil
+		}
+		return cidlink.DefaultLinkSystem().HasherChooser(lp)
+	}
+	id := Keys()["ed25519"][1]
+	n := c.N(40, 2000)
+	for i := 0; i < n; i++ {
+		if !c.Mine(sub, i) {
+			continue
+		}
+		r := c.Rand(sub, i)
+		kind := []string{"bitflip", "bytesub", "truncate", "append", "empty"}[r.Intn(5)]
+		desc := fmt.Sprintf("link names private-use function %#x (known to the application's link system only), its block is served with %s", privCode, kind)
+		c.Cur(sub, i, desc)
+		pub := NewStore()
+		pub.Lsys.HasherChooser = chooser
+		ch, err := NewChain(r, pub, 1, id.ID, cidlink.LinkPrototype{Prefix: cid.Prefix{Version: 1, Codec: cid.DagJSON, MhType: privCode, MhLength: 32}})
+		if err != nil {
+			c.Fail(sub, i, "harness-env", err.Error(), nil)
+			return
+		}
+		old := ch.Cids[0]
+		ch.Proto = linkProto(multihash.SHA2_256, -1)
+		if err := ExtendChain(r, pub, ch, 1, id.ID); err != nil {
+			c.Fail(sub, i, "harness-env", err.Error(), nil)
+			return
+		}
+		front, err := NewFront(c, id, pub, MountPlain, "")
+		if err != nil {
+			c.Fail(sub, i, "harness-env", err.Error(), nil)
+			return
+		}
+		front.Pub.SetRoot(ch.Head())
+		body0, _ := pub.Raw(old)
+		bad := c02Mutate(r, kind, body0, nil)
+		if bad == nil {
+			bad = []byte{}
+		}
+		served := 0
+		front.Plan = func(ev ReqEvent) *Fault {
+			if ev.Rsrc == old.String() {
+				served++
+				return &Fault{Body: bad, Label: kind}
+			}
+			return nil
+		}
+		dst := NewStore()
+		dst.Lsys.HasherChooser = chooser
+		var hmu sync.Mutex
+		var hooks []cid.Cid
+		s, err := newSubscriber(dst, dagsync.BlockHook(func(_ peer.ID, cd cid.Cid, _ dagsync.SegmentSyncActions) {
+			hmu.Lock()
+			hooks = append(hooks, cd)
+			hmu.Unlock()
+		}))
+		if err != nil {
+			front.Close()
+			c.Fail(sub, i, "harness-subscriber", err.Error(), nil)
+			continue
+		}
+		wit := func() any {
+			return map[string]any{"case": desc, "link": old.String(), "served_for_it": fmt.Sprintf("%q", bad), "requests": BlockRequests(front.Log())}
+		}
+		c.Guard(sub, i, wit, func() {
+			_, serr := s.SyncAdChain(context.Background(), front.AddrInfo())
+			if served > 0 {
+				c.Inc("corrupted_blocks_served_for_a_private_function_cid")
+				if serr == nil {
+					c.Fail(sub, i, "corrupted-sync-succeeded:private-hash-function", desc, wit())
+				}
+			} else {
+				c.Inc("private_function_link_not_followed")
+			}
+			if raw, ok := dst.Raw(old); ok && !bytes.Equal(raw, body0) {
+				c.Fail(sub, i, "store-holds-block-not-matching-its-cid:private-hash-function", old.String(), wit())
+			}
+			hmu.Lock()
+			for _, h := range hooks {
+				if h.Equals(old) {
+					c.Fail(sub, i, "corrupted-block-reported:private-hash-function", old.String(), wit())
+				}
+			}
+			hmu.Unlock()
+			if lt := s.GetLatestSync(id.ID); lt != nil && serr != nil {
+				c.Fail(sub, i, "corrupted-sync-set-latest:private-hash-function", lt.String(), wit())
+			}
+		})
+		s.Close()
+		front.Close()
+		c.Eval(1)
+		c.Distinct(sub, kind)
 	}
 }
